@@ -442,7 +442,7 @@ func parseSpecFile(path, pkg string) (*SpecFile, error) {
 			} else if curCover != nil {
 				curCover.Props = ps
 			}
-		case "requires", "ensures", "assert", "assumes":
+		case "requires", "ensures", "assert", "assumes", "envassume":
 			if curLemma != nil {
 				cl, err := mkClause(p, len(curLemma.Hyps)+1)
 				if err != nil {
@@ -459,11 +459,14 @@ func parseSpecFile(path, pkg string) (*SpecFile, error) {
 				return nil, fmt.Errorf("%s:%d: clause outside func", path, p.line)
 			}
 			switch p.kind {
-			case "requires":
+			case "requires", "envassume":
 				cl, err := mkClause(p, len(cur.Requires)+1)
 				if err != nil {
 					return nil, err
 				}
+				// envassume: an assumption about the environment (e.g. what a library hands to this
+				// function) that holds at entry but is not an obligation of callers; listed in the evidence
+				cl.Assumed = p.kind == "envassume"
 				cur.Requires = append(cur.Requires, cl)
 			case "ensures", "assumes":
 				cl, err := mkClause(p, len(cur.Ensures)+1)
